@@ -104,6 +104,9 @@ type replayCase struct {
 func (r *runner) try(sc *vk.Scenario, scen string, b *base, kind string, pos, by int, region string, m []byte) {
 	doc := string(m)
 	sc.States++
+	if countOnly {
+		return
+	}
 	sc.Transitions++
 	sc.Executions++
 	v := r.u.judge(doc)
@@ -126,6 +129,11 @@ func (r *runner) try(sc *vk.Scenario, scen string, b *base, kind string, pos, by
 	sig := fmt.Sprintf("C16|%s|%s@%s|%s", scen, kind, region, v.viol)
 	r.res.Violate(sc, sig, fmt.Sprintf("base %s, %s at %d (byte %d): %s", b.name, kind, pos, by, v.detail), rc)
 }
+
+// C16_COUNT_ONLY=1 (by hand only): enumerate the spaces and count the inputs
+// without calling the verifier; used to state the size of a space that a
+// deadline cut short.
+var countOnly = os.Getenv("C16_COUNT_ONLY") != ""
 
 var structural = []byte(`",}{: `)
 
@@ -346,7 +354,7 @@ func (r *runner) mutate2() {
 			}
 		}
 	}
-	sc.Bound = fmt.Sprintf("%d signed documents; all pairs of single-byte edits (deletion, 14-symbol substitution, 18-symbol insertion) at two different positions inside [separator-%d, separator+13+%d) and the last %d positions (not de-duplicated)", len(bases), before, after, tail)
+	sc.Bound = fmt.Sprintf("%d signed documents; all pairs of single-byte edits (deletion, 14-symbol substitution, 18-symbol insertion) at two different positions inside [separator-%d, separator+13+%d) and the last %d positions incl. the end (not de-duplicated)", len(bases), before, after, tail+1)
 }
 
 func (r *runner) allBases() []*base {
